@@ -394,6 +394,101 @@ def nop_regexes(si: int, mask: int, as_dict: bool, prior: int) -> bool:
     return done(fast.native(_nop, fast.pick(si, 10), fast.pick(mask, 32), bool(fast.pick(as_dict, 2)), fast.pick(prior, 4)))
 
 
+# ------------------------------------------------------------------ pattern SETS: each pattern is matched on its own
+PATTERNS2 = [r"(create)\s+stage", r"^(\w+)\s+x\s+\1\b", r"(?i)^put\s", r"^$", r"(call|exec)\s+(\w+)\s+\2"]
+STMTS2 = [
+    "call x call",  # matches pattern 1 (back-reference to ITS OWN first group)
+    "exec me me",  # matches pattern 4 (its own second group)
+    "exec me create",  # matches nothing
+    "create stage s1",  # matches pattern 0
+    "PUT file://x @s",  # matches pattern 2 (inline flag)
+    "select a from t1",  # matches nothing - also not with an EMPTY pattern list
+    "insert into t2 values (3)",
+    "begin",
+]
+
+
+def _nop_sets(si: int, mask: int, empty_list: bool) -> bool:
+    """Reference semantics of the option (README): a statement is no-op'd iff SOME pattern of the list, taken on its own, matches at its start
+    (re.match, case-insensitive); an empty list and no list are the same: nothing is no-op'd."""
+    import re as _re
+
+    stmt = STMTS2[si]
+    pats = [p for j, p in enumerate(PATTERNS2) if mask & (1 << j)]
+    should_nop = any(_re.match(p, stmt, _re.IGNORECASE) for p in pats)
+    eng = std_engine()
+    try:
+        fs = instance(eng, nop_regexes=pats if (pats or empty_list) else None)
+        conn = fs.connect(database="db1", schema="s1")
+    except Exception:  # noqa: BLE001
+        return False  # every pattern is a valid regular expression on its own: connecting must not fail
+    base, w0, snap0 = len(eng.log), len(eng.writes), eng.user_snapshot()
+    cur = conn.cursor()
+    try:
+        cur.execute(stmt)
+        out, err = (cur.fetchall(), cur.rowcount), None
+    except Exception as e:  # noqa: BLE001
+        out, err = None, type(e).__name__
+    log = [sql for _, sql in eng.log[base:]]
+    if should_nop:
+        return err is None and len(eng.writes) == w0 and eng.user_snapshot() == snap0 and out[0] == [("Statement executed successfully.",)] and len(log) == 1
+    eng2 = std_engine()
+    conn2 = instance(eng2).connect(database="db1", schema="s1")
+    base2 = len(eng2.log)
+    cur2 = conn2.cursor()
+    try:
+        cur2.execute(stmt)
+        out2, err2 = (cur2.fetchall(), cur2.rowcount), None
+    except Exception as e:  # noqa: BLE001
+        out2, err2 = None, type(e).__name__
+    return log == [sql for _, sql in eng2.log[base2:]] and out == out2 and err == err2 and eng.user_snapshot() == eng2.user_snapshot()
+
+
+@ob(
+    "C16.each_pattern_is_matched_on_its_own",
+    encodes=["fakesnow.cursor.FakeSnowflakeCursor.execute (nop_regexes short-circuit)", "fakesnow.conn.FakeSnowflakeConnection.__init__ (option kept per connection)"],
+    bounds="every subset of 5 patterns that only work when taken one at a time (capturing groups with back-references to their own groups, an inline "
+    "(?i) flag, the empty-string pattern '^$'), the EMPTY list and no list x 8 statements: no-op'd iff some single pattern matches at the start "
+    "(reference: re.match per pattern, case-insensitive), otherwise identical to a session without the option",
+    timeout=(200, 400),
+    stubs=["K1/K2 vf.duckstub.Engine"],
+)
+def nop_sets(si: int, mask: int, empty_list: bool) -> bool:
+    """
+    pre: 0 <= si < len(STMTS2) and 0 <= mask < 32
+    post: _
+    """
+    return done(fast.native(_nop_sets, fast.pick(si, len(STMTS2)), fast.pick(mask, 32), bool(fast.pick(empty_list, 2))))
+
+
+def _real_nop_sets(a: dict):
+    import re as _re
+
+    from fakesnow.instance import FakeSnow
+
+    stmt = STMTS2[a["si"]]
+    pats = [p for j, p in enumerate(PATTERNS2) if a["mask"] & (1 << j)]
+    should_nop = any(_re.match(p, stmt, _re.IGNORECASE) for p in pats)
+    try:
+        conn = FakeSnow(nop_regexes=pats if (pats or a["empty_list"]) else None).connect(database="db1", schema="s1")
+    except Exception as e:  # noqa: BLE001
+        return True, f"real stack: connect with nop_regexes={pats!r} raised {type(e).__name__}: {e}"
+    cur = conn.cursor()
+    cur.execute("create table t1 (a int)")
+    cur.execute("create table t2 (a int)")
+    try:
+        rows, err = cur.execute(stmt).fetchall(), None
+    except Exception as e:  # noqa: BLE001
+        rows, err = None, f"{type(e).__name__}"
+    nop = err is None and rows == [("Statement executed successfully.",)] and stmt not in ("begin",)
+    if stmt == "begin":
+        return None, "BEGIN answers with the same status row whether or not it is no-op'd"
+    return nop != should_nop, f"real stack: {stmt!r} with patterns {pats!r}: rows {rows} error {err}; should be no-op'd: {should_nop}"
+
+
+REGISTRY["C16.each_pattern_is_matched_on_its_own"].real_replay = _real_nop_sets
+
+
 # ------------------------------------------------------------------ independence of what happened before (shared harness)
 import obligations.shared_independence as _indep  # noqa: E402
 
